@@ -6,6 +6,7 @@
 (* compared with.  A row is [name, unit, n, d, e]: the suffix (upper case byte *)
 (* sequence), the base unit tag, and the multiplier as the exact rational       *)
 (* n/d * 10^e.  A special is [pat, tag]: pattern with upper-case short form.    *)
+EXTENDS Integers
 UnitRows == <<
   [name |-> <<71, 89>>, unit |-> "GRAY", n |-> 1, d |-> 1, e |-> 0],  \* GY
   [name |-> <<66, 81>>, unit |-> "BECQUEREL", n |-> 1, d |-> 1, e |-> 0],  \* BQ
